@@ -6,6 +6,7 @@ nondeterministic kernel.  Every theorem quantifies over ALL event sequences and 
 import JanetModel.Stream.Lemmas
 import JanetModel.Stream.Slots
 import JanetModel.Proc.Status
+import JanetModel.Proc.SpawnLemmas
 
 namespace JanetModel.Props.C16
 open JanetModel.Stream
@@ -244,5 +245,128 @@ example : decode modelBranches (exitWord 255) = .code 255 := by decide +kernel
 example : decode modelBranches 0 = .code 0 := by decide +kernel
 
 end ExitStatus
+
+/-! ## descriptor plumbing of os/spawn / os/execute and the life cycle of the process value (src/core/os.c) -/
+section Spawn
+open JanetModel.Proc
+
+/-- the standard table of a process with only 0, 1, 2 open -/
+def stdTab : Tab := fun x => if x < 3 then some ⟨.orig x, false⟩ else none
+
+theorem exec_clearCx (o : Option Ent) : (match o.map clearCx with | some e => if e.cloexec then none else some e | none => none) = o.map clearCx := by
+  cases o <;> simp [clearCx]
+
+/-- ★ The child's standard descriptors are exactly the requested redirections.  For every set of handles
+    `os_execute_impl` may have computed and every descriptor table of the parent at the time of `posix_spawn` that satisfy
+    `Safe` (every source handed to `adddup2` is open and above 2, and no block closes a source that a later block still
+    needs — established by the `src_handles` loop and the `!=` tests of the C): the file actions succeed, and when the
+    new program starts
+    * descriptor 0 / 1 / 2 is the source of its redirection (pipe end, file, stream) — never close-on-exec —, or, when
+      the direction was not redirected, what the parent has there; with `:err :out`, 2 is what 1 is;
+    * above 2 the child has nothing that the parent did not already have open without close-on-exec: no pipe end is
+      duplicated into the child beyond 0 / 1 / 2. -/
+theorem child_stdio_exact (p : Plumb) (t : Tab) (h : Safe p t) :
+    ∃ t', runActs t (fileActions p) = some t' ∧
+      t'.exec 0 = (match effIn p with | some s => (t s).map clearCx | none => t.exec 0) ∧
+      t'.exec 1 = (match effOut p with | some s => (t s).map clearCx | none => t.exec 1) ∧
+      t'.exec 2 = (match effErr p with
+                   | some s => (t s).map clearCx
+                   | none => if p.errIsOut then (redirected t (effOut p) 1).map clearCx else t.exec 2) ∧
+      (∀ x, 2 < x → t'.exec x = t.exec x ∨ t'.exec x = none) := by
+  obtain ⟨t', hr, h0, h1, h2, hx⟩ := child_table p t h
+  refine ⟨t', hr, ?_, ?_, ?_, ?_⟩
+  · unfold Tab.exec; rw [h0]
+    cases effIn p with
+    | none => rfl
+    | some s => simp only [redirected]; exact exec_clearCx _
+  · unfold Tab.exec; rw [h1]
+    cases effOut p with
+    | none => rfl
+    | some s => simp only [redirected]; exact exec_clearCx _
+  · unfold Tab.exec; rw [h2]
+    cases effErr p with
+    | some s => exact exec_clearCx _
+    | none =>
+      cases p.errIsOut with
+      | false => rfl
+      | true => exact exec_clearCx _
+  · intro x hx2
+    unfold Tab.exec
+    rcases hx x hx2 with e | e
+    · left; rw [e]
+    · right; rw [e]
+
+/-- ☆ why the sources have to be above 2 (a3cd080): `{:err stdout}` on the code WITHOUT the `src_handles` loop hands
+    `adddup2(1, 2); addclose(1)` to posix_spawn — the child starts without a standard output; with the loop the child's
+    1 and 2 are both the parent's standard output. -/
+theorem std_source_unmoved_loses_descriptor :
+    let rq : Req := ⟨false, .inherit, .inherit, .handle 1 true⟩
+    let a : Proc.Ans := ⟨none, none, none, some 3, some 3, some 3, true, none, none, none⟩
+    ((osExecute false rq a stdTab).child.map (fun c => (c 1, c.objAt 2))) = some (none, some (.orig 1)) ∧
+    ((osExecute true rq a stdTab).child.map (fun c => (c.objAt 1, c.objAt 2, c 3))) = some (some (.orig 1), some (.orig 1), none) ∧
+    (osExecute true rq a stdTab).parent 3 = none := by
+  refine ⟨?_, ?_, ?_⟩ <;> decide
+
+/-! life cycle of the process value -/
+
+/-- ★ A process can be waited for once: after the first `os/proc-wait` (or the wait inside `os/proc-close`) every later
+    `os/proc-wait` is refused with "cannot wait twice on a process", whatever happens in between (reaper callback,
+    closes) — no second reaper thread is ever started for the same pid. -/
+theorem wait_once (p : ProcSt) (ops : List ProcOp) (h : p.waited = true ∨ p.waiting = true) :
+    ((p.run ops).1.waited = true ∨ (p.run ops).1.waiting = true) ∧
+    ((p.run ops).1.step .wait).2 = .errWaitTwice := by
+  induction ops generalizing p with
+  | nil =>
+    refine ⟨h, ?_⟩
+    rcases h with h | h <;> simp [ProcSt.run, ProcSt.step, ProcSt.waitImpl, h]
+  | cons o os ih =>
+    have h' : (p.step o).1.waited = true ∨ (p.step o).1.waiting = true := by
+      cases o with
+      | wait => rcases h with h | h <;> simp [ProcSt.step, ProcSt.waitImpl, h]
+      | reaped st alive => left; rfl
+      | close => rcases h with h | h <;> simp [ProcSt.step, ProcSt.waitImpl, h]
+    exact ih (p.step o).1 h'
+
+/-- … and the first wait does start the reaper: a fresh process value suspends the caller. -/
+theorem first_wait_suspends (p : ProcSt) (h1 : p.waited = false) (h2 : p.waiting = false) :
+    (p.step .wait).2 = .suspended ∧ (p.step .wait).1.waiting = true := by
+  simp [ProcSt.step, ProcSt.waitImpl, h1, h2]
+
+/-- ★ The reaper callback records the decoded status in the process value whether or not the waiting fiber can still
+    be resumed (cancelled, timed out): `(proc :return-code)` is exact even when nobody received the result. -/
+theorem reaped_status_recorded (p : ProcSt) (st : Int) (alive : Bool) :
+    (p.step (.reaped st alive)).1.returnCode = some st ∧ (p.step (.reaped st alive)).1.waited = true ∧
+    (p.step (.reaped st alive)).1.waiting = false ∧
+    (p.step (.reaped st alive)).2 = (if alive then .resumed st else .dropped) := ⟨rfl, rfl, rfl, rfl⟩
+
+/-- ★ `os/proc-close` closes each pipe end the process value owns exactly once: the first close closes exactly the
+    owned ends (in the order in, out, err), and no later operation sequence closes anything again (the OWNS flags are
+    cleared) — a descriptor number is never closed twice, which after reuse would close somebody else's descriptor. -/
+theorem close_closes_owned_once (p : ProcSt) (ops : List ProcOp) :
+    let p1 := (p.step .close).1
+    p1.closedFds = p.closedFds ++ ((if p.owns.1 then p.fds.1.toList else []) ++ (if p.owns.2.1 then p.fds.2.1.toList else []) ++
+        (if p.owns.2.2 then p.fds.2.2.toList else [])) ∧
+    (p1.run ops).1.closedFds = p1.closedFds := by
+  constructor
+  · obtain ⟨w, wg, ⟨o1, o2, o3⟩, ⟨f1, f2, f3⟩, rc, cf⟩ := p
+    cases o1 <;> cases o2 <;> cases o3 <;> cases f1 <;> cases f2 <;> cases f3 <;>
+      by_cases hw : (w || wg) = true <;> simp [ProcSt.step, ProcSt.waitImpl, closeOwned, hw]
+  · have key : ∀ (q : ProcSt), q.owns = (false, false, false) → ∀ ops, ((q.run ops).1.closedFds = q.closedFds) := by
+      intro q hq ops
+      induction ops generalizing q with
+      | nil => rfl
+      | cons o os ih =>
+        have h1 : (q.step o).1.owns = (false, false, false) ∧ (q.step o).1.closedFds = q.closedFds := by
+          cases o with
+          | wait => by_cases hw : (q.waited || q.waiting) = true <;> simp [ProcSt.step, ProcSt.waitImpl, hw, hq]
+          | reaped st alive => exact ⟨hq, rfl⟩
+          | close =>
+            by_cases hw : (q.waited || q.waiting) = true <;> simp [ProcSt.step, ProcSt.waitImpl, hw, hq, closeOwned]
+        show ((q.step o).1.run os).1.closedFds = q.closedFds
+        rw [ih (q.step o).1 h1.1, h1.2]
+    apply key
+    by_cases hw : (p.waited || p.waiting) = true <;> simp [ProcSt.step, ProcSt.waitImpl, hw]
+
+end Spawn
 
 end JanetModel.Props.C16
